@@ -1,6 +1,6 @@
 (* C16 — proofs about Model/Batch.v *)
 From Coq Require Import QArith Lia Permutation.
-From Verif Require Import Prelude Model.Verdict Model.Batch.
+From Verif Require Import Prelude Model.Verdict Model.Batch Proofs.Verdict.
 Open Scope Z_scope.
 
 (* the designed network is handed on unchanged *)
@@ -58,11 +58,24 @@ Proof.
   apply Permutation_map. exact P.
 Qed.
 
-(* inside one request the propagations share the copy: the figures are those of Model/Verdict.leaky_runs *)
-Lemma run_loads_leaky : forall ls p, snd (run_loads p ls) = leaky_runs p ls.
+(* inside one request the propagations share the copy but start from the designed gains: the figures are those of
+   fresh propagations, and the copy ends in the state of the last one *)
+Lemma run_loads_fresh : forall d ls p, same_shape d p ->
+  snd (run_loads d p ls) = fresh_runs d ls /\
+  fst (run_loads d p ls) = match List.last (map Some ls) None with Some l => fst (run_load d l) | None => p end.
 Proof.
-  induction ls as [|l t IH]; intros p; [reflexivity|]. cbn.
-  destruct (run_load p l) as [p' sp]. specialize (IH p'). destruct (run_loads p' t) as [p'' r]. cbn in *. now rewrite IH.
+  intros d. induction ls as [|l t IH]; intros p H; [split; reflexivity|].
+  cbn [run_loads]. rewrite (restore_shape _ _ H).
+  pose proof (run_load_shape d l) as H'. destruct (run_load d l) as [p' sp] eqn:R. cbn [fst] in H'.
+  destruct (IH p' H') as [A B]. destruct (run_loads d p' t) as [p'' r]. cbn [fst snd] in *. split.
+  - cbn. rewrite R. cbn. now rewrite A.
+  - rewrite B. destruct t as [|l' t']; [cbn; now rewrite R|].
+    change (map Some (l :: l' :: t')) with (Some l :: map Some (l' :: t')).
+    rewrite last_cons. cbn [map].
+    assert (G : forall (u : list load) x dflt, exists y, List.last (Some x :: map Some u) dflt = Some y).
+    { induction u as [|z u IHu]; intros x dflt; [exists x; reflexivity|].
+      destruct (IHu z dflt) as [y Hy]. exists y. cbn [map]. rewrite last_cons. exact Hy. }
+    destruct (G t' l' None) as [y Hy]. rewrite Hy. reflexivity.
 Qed.
 
 (* without the copy the pipeline is the same as long as no propagation changes an element *)
